@@ -14,13 +14,21 @@ namespace SemVerif
 
 def Result.accepted (r : Result) : Bool := r.panic.isNone && r.errors.isEmpty
 
+/-- the four recorded findings a C01 violation can be an instance of -/
+def c01Known : List String :=
+  ["F6a:constant-head-operand-unchecked", "F8:call-with-fewer-arguments-accepted",
+   "F9:nested-return-type-unchecked", "F10:struct-attribute-of-undeclared-type-accepted"]
+
+/-- failing instance of C01 for one violation: an enforced rule that the analyzer let through is a
+violation of the property; the unenforced instances are the recorded findings (the rule checker
+marks exactly D4-head, B5-fewer, D2 and the two B11-nested instances as unenforced) -/
 def violTag (v : Viol) : String :=
-  match v.rule with
-  | "D4-head" => "F6a:constant-head-operand-unchecked"
-  | "B5-fewer" => "F8:call-with-fewer-arguments-accepted"
-  | "B11-nested" | "B11-nested-type" => "F9:nested-return-type-unchecked"
-  | "D2" => "F10:struct-attribute-of-undeclared-type-accepted"
-  | r => s!"c01:accepted-but-violates-{r}"
+  if v.enforced then s!"c01:accepted-but-violates-{v.rule}"
+  else match v.rule with
+    | "D4-head" => "F6a:constant-head-operand-unchecked"
+    | "B5-fewer" => "F8:call-with-fewer-arguments-accepted"
+    | "D2" => "F10:struct-attribute-of-undeclared-type-accepted"
+    | _ => "F9:nested-return-type-unchecked"
 
 /-- C01: accepted ⇒ no rule violation -/
 def P_C01 (p : Program) (r : Result) : List String :=
